@@ -18,6 +18,7 @@
     exists only through an unexpected unit is shown in the tables but is not a contest (today it is one: open known finding K5).
  R8 nan-free: every results_* column of the units taken from the feed is filled with 0 (restated from C01.R1.passed-through-nan-free):
     an unexpected unit listed without votes must not put NaN into the indicator products, where 0 * NaN reaches every group.
+ R9 feed-complete: no row of the feed is filtered away before the data handler (restated from C01.R8).
 """
 from __future__ import annotations
 
